@@ -182,6 +182,28 @@ def make_call(spec, v, point=None, log=None, logger=None, iprint=None, nested=No
         args = dict(x0=ro(np.zeros(3)), fun=wrapf(fr), jac=wrap(gr),
                     bounds=ro(np.array([lbz, ubz]).T), gradient_scaler=(lambda *a: 2.0), **kw)
         args["_own"] = cvec
+    elif spec in ("cutls1", "cutls3", "cutrosen"):
+        # line searches cut after 2 trials: the accepted step is the lowest trial, which is
+        # then not the last one the safeguarded iteration proposed
+        kwc = dict(kw, maxiter=40, ftol=1e-13, gtol=1e-9)
+        if spec == "cutrosen":
+            args = dict(x0=ro([2.0 + 0.01 * v, -2.0, 2.0]), fun=wrapf(rosenbrock),
+                        jac=wrap(rosenbrock_grad), bounds=None, **dict(kwc, maxls=2))
+        else:
+            nn = int(spec[-1])
+            f = lambda x: float(np.sum(x + np.exp(-10 * x)))  # noqa: E731
+            g = lambda x: 1.0 - 10 * np.exp(-10 * x)  # noqa: E731
+            # starts on the flat side of the wall: the first steps run into it
+            x0_ = [2.5 + 0.01 * v] if nn == 1 else [0.7 + 0.01 * v, 0.2, 1.9]
+            args = dict(x0=ro(x0_), fun=wrapf(f), jac=wrap(g), bounds=None,
+                        **dict(kwc, maxls=(3 if nn == 1 else 20)))
+    elif spec in ("scaler32", "scaler0d"):
+        # a gradient scaler handing its factor back as a numpy float32 / a 0-d array
+        p = convex3(v)
+        fac = np.float32(0.37) if spec == "scaler32" else np.array(2.5)
+        # (the objective returns a plain Python float, the gradient a float64 array)
+        args = dict(x0=ro(p.x0), fun=wrapf(lambda x: float(p.f(x))), jac=wrap(p.g),
+                    bounds=ro(p.bounds), gradient_scaler=(lambda *a: fac), **kw)
     elif spec == "print":
         f = lambda x: float(np.sum(x + np.exp(-10 * x)))  # noqa: E731
         g = lambda x: 1.0 - 10 * np.exp(-10 * x)  # noqa: E731
@@ -266,7 +288,7 @@ def cases(tier, variants):
         for ip in (-1, 0, 1, 50, 99, 100, 101, 1000):
             for lg in (0, 1):
                 for s in ("print", "update", "bounded", "dropper", "boxhit", "boxhit1",
-                          "boxhit2"):
+                          "boxhit2", "cutls1", "cutls3", "cutrosen", "scaler32", "scaler0d"):
                     yield dict(part="log", var=v, spec=s, iprint=ip, logger=lg)
         for pa in PAIRS:
             # all interleavings of short runs (first K points of each), split by the first
